@@ -117,7 +117,8 @@ func (c *Ctx) ruleExcerpt() {
 			sites = append(sites, s)
 		})
 	}
-	c.floor("appends to the excerpt window (sourceLines.content)", len(sites), 1)
+	nSlice := c.ruleExcerptSliceWindow()
+	c.floor("appends to the excerpt window (sourceLines.content)", len(sites)+nSlice, 1)
 	for i, s := range sites {
 		cons := fmt.Sprintf("%s#append%d", FuncName(s.fn), i+1)
 		where := P.Pos(s.st.Pos())
@@ -478,4 +479,217 @@ func (c *Ctx) ruleTruncateBound() {
 		})
 	}
 	c.floor("returns of truncateString", n, 3)
+}
+
+// ruleExcerptSliceWindow: the second shape of the window: content is a sub-slice of the file's lines
+// (content: lines[lo:hi]) and the numbers are filled in separately - appended once per iteration of a loop that
+// counts from lo to hi, or stored into a made slice of length hi-lo at index k with value lo+k+1. The same clauses
+// as for the append-built window, stated on lo and hi. Returns the number of such windows.
+func (c *Ctx) ruleExcerptSliceWindow() int {
+	P := c.P
+	n := 0
+	for _, fn := range P.ModFuncs {
+		if funcPkgPath(fn) != modulePath+"/src/reporting" {
+			continue
+		}
+		allInstrs(fn, func(b *ssa.BasicBlock, ins ssa.Instruction) {
+			st, ok := ins.(*ssa.Store)
+			if !ok {
+				return
+			}
+			fa, ok := st.Addr.(*ssa.FieldAddr)
+			if !ok || typeStr(deref(fa.X.Type())) != "reporting.sourceLines" || fieldName(deref(fa.X.Type()), fa.Field) != "content" {
+				return
+			}
+			sl, ok := st.Val.(*ssa.Slice)
+			if !ok {
+				return
+			}
+			if _, isArr := deref(sl.X.Type()).Underlying().(*types.Array); isArr {
+				return // the one-element array of an append
+			}
+			n++
+			cons := fmt.Sprintf("%s#slice%d", FuncName(fn), n)
+			where := P.Pos(st.Pos())
+			src := sl.X
+			lc := c.newLin(b)
+			lo, hi := linConst(0), lc.lenVar(src)
+			if sl.Low != nil {
+				lo = lc.of(sl.Low)
+			}
+			if sl.High != nil {
+				hi = lc.of(sl.High)
+			}
+			// SOURCE
+			okSrc := P.RootsAll(src, func(r ssa.Value) bool {
+				call, ok := r.(*ssa.Call)
+				if ok && call.Call.StaticCallee() != nil && strings.HasSuffix(FuncName(call.Call.StaticCallee()), "Reporter).getFileLines") && len(call.Call.Args) >= 2 {
+					_, isParam := call.Call.Args[1].(*ssa.Parameter)
+					return isParam
+				}
+				// the lines read in place: a list of scanner tokens / a cache entry
+				_, isPhi := r.(*ssa.Phi)
+				_, isEx := r.(*ssa.Extract)
+				return isPhi || isEx
+			})
+			c.check(okSrc, "EXCERPT/SOURCE", cons, where, "the window is a part of the lines of the diagnostic's file", "the window is not a part of the cached lines of the file named by the diagnostic's position: "+short(P.Desc(src)))
+			c.ok("EXCERPT/CONTIGUOUS", cons, where, "a sub-slice: neighbouring lines by construction")
+			// NUMBERING: the numbers of the same struct value
+			okNum, whyNum := false, "the numbers are neither appended once per iteration of a loop counting from lo to hi nor stored as lo+k+1 at index k of a slice of length hi-lo"
+			allInstrs(fn, func(b2 *ssa.BasicBlock, i2 ssa.Instruction) {
+				st2, ok := i2.(*ssa.Store)
+				if !ok {
+					return
+				}
+				// (a) numbers = append(numbers, i+1) in `for i := lo; i < hi; i++`
+				if ev, fa2, okA := oneElemAppend(st2); okA && sameStructCell(fa2.X, fa.X) && fieldName(deref(fa2.X.Type()), fa2.Field) == "lineNumbers" {
+					for _, l := range naturalLoops(fn) {
+						if !l.body[b2] {
+							continue
+						}
+						ifi, isIf := lastInstr(l.head).(*ssa.If)
+						if !isIf {
+							continue
+						}
+						bo, isB := ifi.Cond.(*ssa.BinOp)
+						ph, isPhi := bo.X.(*ssa.Phi)
+						if !isB || !isPhi || bo.Op != token.LSS || ph.Block() != l.head {
+							continue
+						}
+						l2 := c.newLin(b2)
+						var init ssa.Value
+						for ei, e := range ph.Edges {
+							if !l.body[l.head.Preds[ei]] {
+								init = e
+							}
+						}
+						atHead := true
+						for _, ex := range l.exits {
+							if ex[0] != l.head {
+								atHead = false
+							}
+						}
+						if init == nil || !atHead {
+							continue
+						}
+						// one number per iteration, and the window leaves the function only after the loop
+						whole := true
+						for _, tb := range fn.Blocks {
+							for _, h := range tb.Succs {
+								if h == l.head && l.body[tb] && !dominates(b2, tb) {
+									whole = false
+								}
+							}
+							if _, isRet := lastInstr(tb).(*ssa.Return); isRet && dominates(b, tb) && (tb == l.head || !dominates(l.head, tb) || l.body[tb]) {
+								whole = false
+							}
+						}
+						if !whole {
+							whyNum = "the numbers are not appended in every iteration, or the window is returned before the loop that numbers it has finished"
+							continue
+						}
+						d1 := l2.of(ev).add(l2.of(ph), -1)
+						sameLo := l2.of(init).add(lo, -1)
+						sameHi := l2.of(bo.Y).add(hi, -1)
+						if d1.isConst() && d1.c == 1 && sameLo.isConst() && sameLo.c == 0 && sameHi.isConst() && sameHi.c == 0 {
+							okNum = true
+						} else {
+							whyNum = fmt.Sprintf("numbers appended in a loop are not i+1 for i from lo to hi [number-i: %s, init-lo: %s, bound-hi: %s]", d1.key(), sameLo.key(), sameHi.key())
+						}
+					}
+				}
+				// (b) numbers[k] = lo + k + 1 for every k of a slice made with length hi-lo
+				if ia, isIA := st2.Addr.(*ssa.IndexAddr); isIA {
+					if ld, isLd := ia.X.(*ssa.UnOp); isLd && ld.Op == token.MUL {
+						if fa2, isFA := ld.X.(*ssa.FieldAddr); isFA && sameStructCell(fa2.X, fa.X) && fieldName(deref(fa2.X.Type()), fa2.Field) == "lineNumbers" && (isRangeIndex(ia.Index) || isFullIndexLoopOver(ia.Index, ia.X)) {
+							l2 := c.newLin(b2)
+							d := l2.of(st2.Val).add(l2.of(ia.Index), -1).add(lo, -1)
+							if d.isConst() && d.c == 1 {
+								okNum = true
+							} else {
+								whyNum = "numbers[k] is not lo + k + 1: " + d.key()
+							}
+						}
+					}
+				}
+			})
+			c.check(okNum, "EXCERPT/NUMBERING", cons, where, "content is lines[lo:hi] and the number beside content[k] is lo+k+1", whyNum)
+			// the parameter that receives the diagnostic's line
+			var lineParam *ssa.Parameter
+			for _, cs := range P.Callers(fn) {
+				for ai, a := range cs.Common().Args {
+					if strings.HasSuffix(P.Desc(a), "go/token.Position.Line)") && ai < len(fn.Params) {
+						lineParam = fn.Params[ai]
+					}
+				}
+			}
+			if lineParam == nil {
+				c.fail("EXCERPT/CONTAINS-LINE", cons, where, "the window function does not receive the diagnostic's line (token.Position.Line)")
+				return
+			}
+			lcA := c.newLin(b)
+			lA, nA := lcA.of(lineParam), lcA.lenVar(src)
+			okP := lcA.prove(geq(lA, linConst(1))) && lcA.prove(geq(nA, lA))
+			c.check(okP, "EXCERPT/DEGRADE/NO-PARTIAL", cons, where, "lines are shown only when the file has the reported line (1 <= line <= len(lines) dominates the window)",
+				"context lines are shown although the file as read does not have the reported line: 1 <= line <= len(lines) does not follow from the conditions under which the window is taken")
+			lc2 := c.newLin(b)
+			ln := lc2.of(lineParam)
+			lc2.facts = append(lc2.facts, ln.add(linConst(1), -1), geq(lc2.lenVar(src), ln))
+			lo2, hi2 := linConst(0), lc2.lenVar(src)
+			if sl.Low != nil {
+				lo2 = lc2.of(sl.Low)
+			}
+			if sl.High != nil {
+				hi2 = lc2.of(sl.High)
+			}
+			want := ln.add(linConst(1), -1)
+			okIn := lc2.prove(geq(want, lo2)) && lc2.prove(geq(hi2.add(linConst(1), -1), want))
+			c.check(okIn, "EXCERPT/CONTAINS-LINE", cons, where, "an existing reported line lies inside the window [lo, hi)", "the excerpt window does not always contain the reported line although the file has it (window: "+lo2.key()+" .. "+hi2.key()+")")
+			// DEGRADE: an empty window only for an unreadable file or a missing line
+			allInstrs(fn, func(b3 *ssa.BasicBlock, i3 ssa.Instruction) {
+				r, ok := i3.(*ssa.Return)
+				if !ok || dominates(b, b3) {
+					return
+				}
+				rcons := fmt.Sprintf("%s#empty@%s", FuncName(fn), P.Pos(r.Pos()))
+				nilCut := P.BlockCutBy(b3, func(l Lit) bool {
+					v := nilCheckedValue(l)
+					return v != nil && l.Pos && P.Desc(v) == P.Desc(src)
+				})
+				if nilCut {
+					c.ok("EXCERPT/DEGRADE", rcons, P.Pos(r.Pos()), "no excerpt when the file cannot be read")
+					return
+				}
+				lc3 := c.newLin(b3)
+				l3 := lc3.of(lineParam)
+				lc3.facts = append(lc3.facts, l3.add(linConst(1), -1), geq(lc3.lenVar(src), l3))
+				c.check(lc3.prove(linConst(-1)), "EXCERPT/DEGRADE", rcons, P.Pos(r.Pos()), "no excerpt only when the file does not have the reported line",
+					"an empty excerpt is returned although the file is readable and has the reported line (1 <= line <= len(lines) is consistent with the conditions of this return)")
+			})
+		})
+	}
+	return n
+}
+
+// sameStructCell: a and b are the same struct variable, or one is the temporary of a composite literal that is
+// copied into the other as a whole (result := T{...}).
+func sameStructCell(a, b ssa.Value) bool {
+	if a == b {
+		return true
+	}
+	copied := func(dst, src ssa.Value) bool {
+		refs := dst.Referrers()
+		if refs == nil {
+			return false
+		}
+		for _, r := range *refs {
+			if st, ok := r.(*ssa.Store); ok && st.Addr == dst {
+				if ld, ok := st.Val.(*ssa.UnOp); ok && ld.Op == token.MUL && ld.X == src {
+					return true
+				}
+			}
+		}
+		return false
+	}
+	return copied(a, b) || copied(b, a)
 }
